@@ -58,6 +58,7 @@ Theorem C12_heap_routes : forall grow extra strict ss hs', hexec_block true grow
 Proof. exact hexec_routes_den_heap. Qed.
 (* the classic aliasing defect (combineHandlers returning its first argument uncopied when the second is empty) is refuted on
    this model: two sibling routes end up with the second route's middleware *)
+Local Open Scope nat_scope.
 Theorem C12_legacy_aliasing_refuted :
   match hexec_block false 2 0 true alias_prog hinit, exec_block true alias_prog rinit with
   | Ok hs', Ok st' =>
